@@ -252,7 +252,8 @@ package pubsub
 //@   at call handleAddTopic assume request-from-Join: $arg1 != nil && $arg1.topic != nil
 //@   at call handleRemoveTopic assume request-from-Close: $arg1 != nil && $arg1.topic != nil
 //@   at call handleAddRelay assume request-from-Relay: $arg1 != nil && !fanoutOnlyT(p, $arg1.topic)
-//@   at call handleIncomingRPC assume decoded-by-reader: $arg1 != nil && (forall i int :: 0 <= i && i < len($arg1.RPC.Publish) ==> $arg1.RPC.Publish[i] != nil)
+//@   at call handleIncomingRPC assume decoded-by-reader: $arg1 != nil && (forall i int :: 0 <= i && i < len($arg1.RPC.Publish) ==> $arg1.RPC.Publish[i] != nil) &&
+//@        (forall i int :: 0 <= i && i < len($arg1.RPC.Subscriptions) ==> $arg1.RPC.Subscriptions[i] != nil)
 //@   at call publishMessage assume validated-message: $arg1 != nil
 //@   at call publishMessageBatch assume validated-batch: allocated(arr($arg1.messages)) && (forall i int :: 0 <= i && i < len($arg1.messages) ==> $arg1.messages[i] != nil && allocated($arg1.messages[i]))
 //@   loop 1 step add-sub-dispatched: calls((*PubSub).handleAddSubscription) - iter(calls((*PubSub).handleAddSubscription)) == received(p.addSub) - iter(received(p.addSub)) &&
